@@ -78,6 +78,9 @@ type WNet struct {
 	// first N client datagrams that contain an Initial packet vanish
 	DropInitials        int   `json:"drop_initials,omitempty"`
 	DropInitialsAfterMS int64 `json:"drop_initials_after_ms,omitempty"`
+	// the same for client datagrams that contain a Handshake packet (the client's address stays unvalidated for longer)
+	DropHandshakes        int   `json:"drop_handshakes,omitempty"`
+	DropHandshakesAfterMS int64 `json:"drop_handshakes_after_ms,omitempty"`
 }
 
 type WConfig struct {
@@ -167,12 +170,13 @@ var (
 )
 
 type World struct {
-	initialsDropped int
-	T               *testing.T
-	Seed            uint64
-	Net             *WNet
-	Res             *KResult
-	Start           time.Time
+	initialsDropped   int
+	handshakesDropped int
+	T                 *testing.T
+	Seed              uint64
+	Net               *WNet
+	Res               *KResult
+	Start             time.Time
 
 	mu        sync.Mutex
 	q         wHeap
@@ -204,6 +208,15 @@ func NewWorld(t *testing.T, seed uint64, n *WNet, res *KResult) *World {
 func wHasInitial(rec *DgramRec) bool {
 	for _, p := range rec.Pkts {
 		if p.Type == TapInitial {
+			return true
+		}
+	}
+	return false
+}
+
+func wHasType(rec *DgramRec, t int) bool {
+	for _, p := range rec.Pkts {
+		if p.Type == t {
 			return true
 		}
 	}
@@ -297,6 +310,10 @@ func (w *World) SendPacket(p simnet.Packet) error {
 		faults = w.explicit[[2]int{dir, ord}]
 	} else if w.Net.DropInitials > w.initialsDropped && dir == 0 && now/1e6 >= w.Net.DropInitialsAfterMS && wHasInitial(rec) {
 		w.initialsDropped++
+		faults = []WFault{{Dir: dir, Ord: ord, Kind: "drop"}}
+		w.Fired = append(w.Fired, faults...)
+	} else if w.Net.DropHandshakes > w.handshakesDropped && dir == 0 && now/1e6 >= w.Net.DropHandshakesAfterMS && wHasType(rec, TapHandshake) {
+		w.handshakesDropped++
 		faults = []WFault{{Dir: dir, Ord: ord, Kind: "drop"}}
 		w.Fired = append(w.Fired, faults...)
 	} else if pinned := w.explicit[[2]int{dir, ord}]; len(pinned) > 0 {
